@@ -35,6 +35,7 @@ for _n in ("bitwise_lshift", "bitwise_rshift", "rotl", "rotr"):
 for _n in ("sqrt", "bitofsign", "sign", "signnz", "ceil", "floor", "trunc", "round", "nearbyint", "rint"):
     op(_n, "xsimd::%s(a)" % _n, "B", FLOAT_TYPES)
 op("copysign", "xsimd::copysign(a, b)", "BB", FLOAT_TYPES)
+op("clip", "xsimd::clip(a, b, c)", "BBB", ALL_TYPES)
 for _n in ("isnan", "isinf", "isfinite", "is_flint", "is_even", "is_odd"):
     op(_n, "xsimd::%s(a)" % _n, "B", FLOAT_TYPES, "M")
 # C03
@@ -208,6 +209,7 @@ for _n in ("eq", "neq", "lt", "le", "gt", "ge"):
 for _n in ("incr_if", "decr_if"):
     SOPS[_n] = ("xsimd::%s(a, m)" % _n, "Tb", INT_TYPES, "T")
 SOPS["select"] = ("xsimd::select(m, a, b)", "bTT", ALL_TYPES, "T")
+SOPS["clip"] = ("xsimd::clip(a, b, c)", "TTT", ALL_TYPES, "T")
 
 
 def scalar_entry_name(opn, tid):
